@@ -55,12 +55,14 @@ func quiescent(label string, ms *memstore.Store) {
 // txDiscipline checks C05/C07-P1 for one public write operation from the store's event log:
 // exactly one write transaction, committed exactly once iff the operation succeeded, all writes inside it.
 func txDiscipline(label string, ms *memstore.Store, logStart int, commitsBefore int, err error) {
-	writeTx, commits, writesAfterCommit, writes := 0, 0, 0, 0
+	writeTx, readTx, commits, writesAfterCommit, writes := 0, 0, 0, 0, 0
 	committed := map[int]bool{}
 	for _, ev := range ms.Log[logStart:] {
 		switch ev.Kind {
 		case memstore.EvBeginWrite:
 			writeTx++
+		case memstore.EvBeginRead:
+			readTx++
 		case memstore.EvCommit:
 			if !ev.Err {
 				committed[ev.Tx] = true
@@ -74,6 +76,9 @@ func txDiscipline(label string, ms *memstore.Store, logStart int, commitsBefore 
 	}
 	commits = ms.Commits - commitsBefore
 	nd.Assert(label+".single-write-tx", writeTx <= 1)
+	// C07-P1: checks and writes of one operation share one transaction (a check made in an earlier
+	// transaction can be invalidated by a concurrent writer before the write transaction begins)
+	nd.Assert(label+".one-transaction-per-operation", writeTx+readTx <= 1)
 	nd.Assert(label+".no-write-after-commit", writesAfterCommit == 0)
 	if err == nil {
 		// a successful operation committed its single transaction, unless it wrote nothing at all
@@ -175,6 +180,7 @@ func opsDelete(o ref.Opts) {
 	logStart, commits := len(e.ms.Log), e.ms.Commits
 	pre := snapshot(e.ms)
 	var err error
+	countAfter := false
 	switch nd.Choice("op", 5) {
 	case 0:
 		crit := genCmpLeaf("c", "x", opLit)
@@ -196,8 +202,7 @@ func opsDelete(o ref.Opts) {
 		// deleting an absent id: nil or ErrDocumentNotExist, and nothing changes (incl. the count)
 		nd.Assert("C06.deletebyid-absent.result", err == nil || errors.Is(err, ErrDocumentNotExist))
 		nd.Assert("C06.deletebyid-absent.unchanged", unchanged(e.ms, pre))
-		n, cerr := e.db.Count(query.NewQuery("c"))
-		nd.Assert("C09.count-after-absent-delete", cerr == nil && n == len(c.docs))
+		countAfter = true
 		nd.Reach("delete-absent")
 	case 4:
 		err = e.db.DropCollection("c")
@@ -208,6 +213,10 @@ func opsDelete(o ref.Opts) {
 	quiescent("C04.delete", e.ms)
 	if err == nil {
 		txDiscipline("C05.delete", e.ms, logStart, commits, err)
+	}
+	if countAfter {
+		n, cerr := e.db.Count(query.NewQuery("c"))
+		nd.Assert("C09.count-after-absent-delete", cerr == nil && n == len(c.docs))
 	}
 	audit("C06.delete", e.ms, a)
 	nd.Reach("end")
